@@ -89,7 +89,7 @@ func (w *c15world) drain() int {
 }
 
 func (w *c15world) feed(lens [2]int) {
-	for i, l := range lens {
+	for i, l := range lens[:vParam("routes")] {
 		aspath := []uint32{65001, 65010, 65011}[:l]
 		vRecv(w.s, w.a, vUpdate4(vPrefix4(10, byte(1+i), 0, 0, 16), false, aspath, vAddr4(10, 0, 0, 2)), int64(10+i))
 		w.drain()
@@ -132,7 +132,10 @@ func c15same(x, y *c15world, export bool) {
 func VH_c15_soft_reset() {
 	export := vParam("export") == 1
 	old, cur := c15symPolicy("old"), c15symPolicy("new")
-	lens := [2]int{1 + vChoice("aspath_len", 3), 1 + vChoice("aspath_len", 3)}
+	lens := [2]int{1 + vChoice("aspath_len", 3), 1}
+	if vParam("routes") > 1 {
+		lens[1] = 1 + vChoice("aspath_len", 3)
+	}
 	w1 := c15new(old, export)
 	w1.feed(lens)
 	rp, ap := cur.config(export)
